@@ -9,7 +9,11 @@ import numpy as np
 from .common import Disagreement, drive, q, qs, parse_qs, ROOT
 
 PROP_MODULE = 'PbVerif.Props.C08'
-RULE = ('cases = (method, dimension, x domain (offset/scale over many decades, negative, unsorted), poly_order / order pairs / max_cross, '
+RULE = ('2-D max_cross: for every 2-D polynomial method, order pairs (equal and UNEQUAL, 0..4) x every max_cross from 0 to beyond the larger '
+        'order and None, against the documented monomial set {x^i z^j : i = 0 or j = 0 or max(i, j) <= max_cross} written down '
+        'independently of the code: returned coefficients of excluded monomials are zero, the baseline lies in the span of the allowed '
+        'monomials (independent projection), and for poly the residual is W-orthogonal to every allowed monomial in exact rationals; '
+        'cases = (method, dimension, x domain (offset/scale over many decades, negative, unsorted), poly_order / order pairs / max_cross, '
         'weights, cost function); coefficient-transform entries vs the exact model, coefficients evaluated exactly in rationals on the '
         'user x against the returned baseline with a rounding budget derived from sum|c_j||x|^j, exact weighted normal-equation residual '
         'for poly; non-trivial = order >= 1 and domain != [-1, 1]; distinct by canonical tuple')
@@ -46,6 +50,96 @@ METHODS_1D = [('poly', {}), ('modpoly', {}), ('imodpoly', {}), ('penalized_poly'
               ('penalized_poly', {'cost_function': 'symmetric_truncated_quadratic'}), ('penalized_poly', {'cost_function': 'asymmetric_huber'}),
               ('quant_reg', {}), ('goldindec', {}), ('dietrich', {})]
 METHODS_2D = [('poly', {}), ('modpoly', {}), ('imodpoly', {}), ('penalized_poly', {}), ('quant_reg', {})]
+
+
+# ---------------------------------------------------------------------------------------------------------------------------------
+# max_cross.  Documentation (every 2-D polynomial method): "The maximum degree for the cross terms.  For example, if max_cross is 1,
+# then x z**2, x**2 z, and x**2 z**2 would all be set to 0.  Default is None, which does not limit the cross terms."  Hence, for
+# poly_order = (ox, oz), the fitted polynomial may contain exactly the monomials below (pure powers of x or z are never cross terms).
+def allowed_monomials(ox, oz, max_cross):
+    return [(i, j) for i in range(ox + 1) for j in range(oz + 1) if max_cross is None or i == 0 or j == 0 or max(i, j) <= max_cross]
+
+
+UNEQUAL_PAIRS = [(1, 3), (4, 2), (2, 3), (3, 1), (1, 2), (2, 4), (0, 3), (4, 1), (3, 4), (2, 1), (1, 4), (3, 0), (4, 3), (3, 2), (2, 0), (0, 1),
+                 (4, 0), (0, 4), (1, 0), (0, 2)]
+EQUAL_PAIRS = [(2, 2), (3, 3), (1, 1), (4, 4), (0, 0)]
+
+
+def max_cross_problems(name, kw, x, z, Y, only=None, stats=None):
+    """the 2-D polynomial method `name` called (fresh fitter) with kw = {poly_order: (ox, oz), max_cross, weights, ...}: list of
+    (check, text) for every clause of the documented max_cross semantics that fails"""
+    from pybaselines import Baseline2D
+    ox, oz = kw['poly_order']
+    mc = kw.get('max_cross')
+    with np.errstate(all='ignore'):
+        b, p = getattr(Baseline2D(x, z), name)(Y, **dict(kw, return_coef=True))
+    out = []
+    stats = {} if stats is None else stats
+    if not np.all(np.isfinite(b)):
+        return out
+    allowed = allowed_monomials(ox, oz, mc)
+    excluded = [(i, j) for i in range(ox + 1) for j in range(oz + 1) if (i, j) not in allowed]
+    coef = np.asarray(p['coef'], dtype=float)
+    label = f'2-D {name}(poly_order={(ox, oz)}, max_cross={mc})'
+    # (1) coefficients of excluded monomials are zero.  The excluded set is closed under raising either exponent, and the change of
+    # variables back to the user's x, z (t = off + scl x: x^a receives C(i, a) off^(i-a) scl^a from t^i) is triangular, so this holds
+    # for the returned (user-domain) coefficients as for the mapped ones.  pinv / lstsq leave rounding noise instead of exact zeros,
+    # and the change of variables multiplies it by powers of the offset: each excluded coefficient is measured against the size a
+    # mapped coefficient of the order of the baseline would give AT ITS POSITION, sum_ij |Tx[a, i]| |Tz[b, j]| max|baseline|
+    # (far from the origin the user-domain coefficients are huge and cancel; a comparison with the largest term would not be relative
+    # to the quantity compared).
+    if coef.shape == (ox + 1, oz + 1) and (only in (None, 'maxcross-coef')):
+        from math import comb
+
+        def transform_abs(lo, hi, order):
+            off, scl = np.polynomial.polyutils.mapparms(np.array([lo, hi], dtype=float), np.array([-1., 1.]))
+            with np.errstate(all='ignore'):
+                return np.array([[abs(comb(i, a_) * float(off) ** (i - a_) * float(scl) ** a_) if i >= a_ else 0.0 for i in range(order + 1)]
+                                 for a_ in range(order + 1)])
+        S = transform_abs(float(x.min()), float(x.max()), ox).sum(axis=1)[:, None] * transform_abs(float(z.min()), float(z.max()), oz).sum(axis=1)[None, :] \
+            * max(float(np.max(np.abs(b))), 1e-300)
+        if np.all(np.isfinite(S)) and np.all(S > 0):
+            ratio = np.abs(coef) / S
+            if excluded:
+                stats['coef'] = max(stats.get('coef', 0.0), max(float(ratio[i, j]) for (i, j) in excluded))
+            for (i, j) in excluded:
+                if ratio[i, j] > 1e-9:
+                    out.append(('maxcross-coef', f'{label}: the coefficient of the excluded cross term x^{i} z^{j} is {coef[i, j]!r} ({ratio[i, j]:.3g} of '
+                                                 f'the size a mapped coefficient of the order of the baseline has at this position) instead of 0'))
+                    break
+    # (2) the baseline lies in the span of the allowed monomials: projection computed here, on numpy's own mapped abscissae
+    tx = np.polynomial.polyutils.mapdomain(x, np.array([x.min(), x.max()]), np.array([-1., 1.]))
+    tz = np.polynomial.polyutils.mapdomain(z, np.array([z.min(), z.max()]), np.array([-1., 1.]))
+    V = np.stack([np.outer(tx ** i, tz ** j).ravel() for (i, j) in allowed], axis=1)
+    if only in (None, 'maxcross-space'):
+        sol = np.linalg.lstsq(V, b.ravel(), rcond=None)[0]
+        miss = float(np.max(np.abs(V @ sol - b.ravel())))
+        bs = max(float(np.max(np.abs(b))), 1e-300)
+        stats['space'] = max(stats.get('space', 0.0), miss / bs)
+        if miss > 1e-9 * bs:
+            out.append(('maxcross-space', f'{label}: the baseline is not a combination of the {len(allowed)} allowed monomials (distance {miss / bs:.3g} '
+                                          f'of max|baseline| from their span)'))
+    # (3) poly: least squares over exactly that space - the residual is W-orthogonal to every allowed monomial (exact rationals)
+    if name == 'poly' and only in (None, 'maxcross-normal'):
+        w = np.ones(Y.shape) if kw.get('weights') is None else np.asarray(kw['weights'], dtype=float)
+        fx = [[Fraction(float(v)) ** i for v in tx] for i in range(ox + 1)]
+        fz = [[Fraction(float(v)) ** j for v in tz] for j in range(oz + 1)]
+        R = [[Fraction(float(Y[a, c])) - Fraction(float(b[a, c])) for c in range(len(z))] for a in range(len(x))]
+        W = [[Fraction(float(w[a, c])) for c in range(len(z))] for a in range(len(x))]
+        worst = 0.0
+        for (i, j) in allowed:
+            num = sum(W[a][c] * R[a][c] * fx[i][a] * fz[j][c] for a in range(len(x)) for c in range(len(z)))
+            den = sum(W[a][c] * abs(R[a][c]) * abs(fx[i][a] * fz[j][c]) for a in range(len(x)) for c in range(len(z)))
+            # a residual at rounding level (interpolation, exactly polynomial data) is measured against the data scale (Appendix C)
+            floor = sum(W[a][c] * abs(Fraction(float(Y[a, c]))) * abs(fx[i][a] * fz[j][c]) for a in range(len(x)) for c in range(len(z)))
+            dd = float(den) + 1e-3 * float(floor)
+            if dd > 0:
+                worst = max(worst, abs(float(num)) / dd)
+        stats['normal'] = max(stats.get('normal', 0.0), worst)
+        if worst > 1e-7:
+            out.append(('maxcross-normal', f'{label}: the residual is not W-orthogonal to the allowed monomials (exact relative normal-equation '
+                                           f'residual {worst:.3g}) - not the least-squares polynomial of the documented space'))
+    return out
 
 
 def correspond(ctx):
@@ -230,6 +324,51 @@ def correspond(ctx):
                     dis.append(Disagreement('c08.normal', 'normal:2d', f'2-D poly (order {(ox, oz)}, max_cross {mc}): residual is not W-orthogonal to '
                                             f'the allowed polynomial terms (relative {float(np.max(num / den)):.3g}) - not the least-squares polynomial',
                                             dict(meta, check='normal2d'), True))
+    # 2-D max_cross semantics: unequal and equal order pairs x every max_cross from 0 to beyond the larger order and None
+    mc_stats = {}
+    for im, (name, extra) in enumerate(METHODS_2D):
+        if ctx.thorough:
+            pairs = UNEQUAL_PAIRS + EQUAL_PAIRS
+        else:
+            k0 = (5 * (ctx.seed + im)) % len(UNEQUAL_PAIRS)
+            pairs = [UNEQUAL_PAIRS[(k0 + t) % len(UNEQUAL_PAIRS)] for t in range(5)] + [EQUAL_PAIRS[(ctx.seed + im) % len(EQUAL_PAIRS)]]
+        for (ox, oz) in pairs:
+            dx, dz = DOMAINS[int(rng.integers(0, len(DOMAINS)))], DOMAINS[int(rng.integers(0, len(DOMAINS)))]
+            m, n = 9, 8
+            x, z = np.linspace(*dx, m), np.linspace(*dz, n)
+            if rng.random() < 0.3:
+                x = x[rng.permutation(m)]
+            tx, tz = np.meshgrid(np.linspace(0, 1, m), np.linspace(0, 1, n), indexing='ij')
+            Y = 3 + 2 * tx - tz + tx * tz + 2 * tx ** 2 * tz - 3 * tx * tz ** 3 + 5 * np.exp(-((tx - 0.5) / 0.2) ** 2 - ((tz - 0.4) / 0.2) ** 2) \
+                + rng.normal(0, 0.03, (m, n))
+            for mc in [None] + list(range(0, max(ox, oz) + 2)):
+                kw = dict(extra, poly_order=(ox, oz), max_cross=mc)
+                if rng.random() < 0.4:
+                    wts = np.round(rng.uniform(0.05, 1, (m, n)) * 64) / 64
+                    if rng.random() < 0.3:
+                        wts[rng.random((m, n)) < 0.1] = 0
+                    kw['weights'] = wts
+                if name in ('modpoly', 'imodpoly', 'penalized_poly', 'quant_reg'):
+                    kw['max_iter'] = int(rng.choice([3, 20]))
+                meta = {'method': name, 'kw': {k: (v.tolist() if isinstance(v, np.ndarray) else (list(v) if isinstance(v, tuple) else v)) for k, v in kw.items()},
+                        'x': x.tolist(), 'z': z.tolist(), 'y': Y.tolist(), 'two_d': True}
+                try:
+                    probs = max_cross_problems(name, kw, x, z, Y, stats=mc_stats)
+                except Exception as ex:
+                    ctx.count('raises-maxcross:' + type(ex).__name__)
+                    continue
+                region = ('none' if mc is None else 'below-both' if mc < min(ox, oz) else 'between-the-orders' if mc < max(ox, oz) else 'at-or-above-both')
+                ctx.case(('maxcross', name, ox, oz, mc, dx, dz, 'weights' in kw), nontrivial=True,
+                         sample={'method': '2-D ' + name, 'poly_order': [ox, oz], 'max_cross': mc, 'allowed monomials': len(allowed_monomials(ox, oz, mc)),
+                                 'of': (ox + 1) * (oz + 1)} if region == 'between-the-orders' and name == 'poly' and len(ctx.samples) < 6 else None)
+                ctx.count('maxcross:' + name)
+                ctx.count('maxcross-orders:' + ('unequal' if ox != oz else 'equal'))
+                ctx.count('maxcross-region:' + region)
+                for chk, text in probs:
+                    dis.append(Disagreement('c08.maxcross', f'{chk}:{name}', text, dict(meta, check=chk), True))
+    ctx.notes.append('max_cross, measured: largest excluded coefficient / natural size of its position = %.3g (limit 1e-9); largest distance of a baseline from '
+                     'the allowed span / max|baseline| = %.3g (limit 1e-9); largest exact normal-equation residual of 2-D poly = %.3g (limit 1e-7)'
+                     % (mc_stats.get('coef', 0.0), mc_stats.get('space', 0.0), mc_stats.get('normal', 0.0)))
     reg2 = M.registry(True)
     for name in sorted({m for m, _ in METHODS_2D}):
         e = reg2[name]
@@ -353,6 +492,10 @@ def replay(ctx, data):
         if r.get('two_d'):
             kw['poly_order'] = kw['poly_order'] if isinstance(kw['poly_order'], int) else tuple(kw['poly_order'])
             x, z, Y = np.array(r['x']), np.array(r['z']), np.array(r['y'])
+            if str(r.get('check', '')).startswith('maxcross'):
+                kw.pop('return_coef', None)
+                probs = max_cross_problems(r['method'], kw, x, z, Y, only=r['check'])
+                return probs[0][1] if probs else None
             b, p = getattr(Baseline2D(x, z), r['method'])(Y, **kw)
             coef = p['coef']
             tot = 0.0
